@@ -168,6 +168,24 @@ theorem whileRej_terminates_archimedean [Archimedean K] (cfg : Cfg K σ) (Inv : 
   obtain ⟨r', h1, h2, _⟩ := whileRej_terminates cfg Inv ρ h hρ hpos hinv hcon hest t1 k r hI hdt hahead hacc hk' fuel hf
   exact ⟨r', h1, h2⟩
 
+/-- **step_terminates.**  `RejectionLoop.step` (initialise the loop state, run the `while_loop`, extract) returns
+whenever it has fuel for `k + 1` attempts, under the hypotheses of `whileRej_terminates` read off the incoming
+`TimeStepState`; the state it returns interpolates from the state the step started from. -/
+theorem step_terminates (cfg : Cfg K σ) (Inv : σ → Prop) (ρ h : K) (hρ : 0 ≤ ρ)
+    (hpos : CtlPos cfg.ctl) (hinv : CtlInv cfg.ctl Inv) (hcon : CtlContracts cfg.ctl Inv ρ)
+    (hest : ∀ es a b dt, 0 ≤ (cfg.est.estimate es a b dt).1) (t1 : K) (k : Nat)
+    (s : TimeStepState K σ) (hI : Inv s.control) (hdt : 0 < s.dt) (hahead : cfg.clip = true → s.stepFrom.t < t1)
+    (hacc : ∀ dt, 0 < dt → dt ≤ h →
+        ¬ (cfg.est.estimate s.errorStepFrom s.stepFrom (cfg.solver.step s.stepFrom dt) dt).1 < 1)
+    (hk : ρ ^ k * s.dt ≤ h) (fuel : Nat) (hfuel : k + 1 ≤ fuel) :
+    ∃ s', cfg.step fuel s t1 = some s' ∧ s'.interpFrom = s.stepFrom := by
+  obtain ⟨r', h1, _, h3⟩ := whileRej_terminates cfg Inv ρ h hρ hpos hinv hcon hest t1 k
+    (cfg.stepInitLoopstate s) hI hdt hahead hacc hk fuel hfuel
+  refine ⟨r'.extract, ?_, ?_⟩
+  · simp [Cfg.step, h1]
+  · show r'.stepFrom = s.stepFrom
+    rw [h3]; rfl
+
 /-- non-vacuity of `CtlContracts` with `ρ < 1`: the shipped integral controller over `ℚ` -/
 example : CtlContracts (ctlI (⟨Consts.ctlI_safety, Consts.ctlI_factor_min, Consts.ctlI_factor_max⟩ : ICtlP ℚ))
     (fun _ => True) (max Consts.ctlI_factor_min Consts.ctlI_safety) ∧
